@@ -63,7 +63,7 @@ def s_case(gran):
 
 
 def interpret(case, ctx):
-    sim = S.Sim(tape=case["tape"], granularity=case["gran"], max_steps=400000)
+    sim = S.Sim(tape=case["tape"], granularity=case["gran"], max_steps=60000)
     try:
         with sim:
             _run(case, ctx, sim)
